@@ -751,12 +751,15 @@ fn check_safe(prog: &SafeProg, info: &mut Info) -> Result<(), String> {
     }
 }
 
+crate::long_sub!(run_long_history, [19]);
+
 pub fn def() -> PropDef {
     PropDef {
         id: "C07",
         rule: "predicate: coordinate pairs built with transmute - arbitrary pairs, points of every class of the curve (subgroup, full-curve, every small prime order dividing the cofactor, order l*r, negated, same-y), points on y^2 = x^3 + b'' for six other b'' (twists / wrong curves incl. the crate's own b = 24 and b = 3 examples), y+1, swapped coordinates, infinity flag with arbitrary coordinates; oracle: identity or (on curve and [r]P = O) in the model. Closure: programs whose 4 registers are seeded only from safe sources (generator, zero, random(rng) from a generated seed, checked decode / deserialize of valid encodings, hash_to_curve / encode_to_curve, map_to_curve, map2_to_curve incl. u1 = +-u0 and constructed coinciding / inverse SSWU partners) followed by 0..9 safe operations (add, sub, mixed add, double, negate, every scalar-multiplication path, sum_of_products, encode->decode, serialize->deserialize, batch normalization); after every step the crate's in_subgroup() must hold, sources are tested by the model ([r]P = O on the curve), derived values must equal the model's group-law value. Non-trivial = on-curve pair (predicate) / program with >= 3 operations of >= 2 kinds (closure); distinct = distinct cases",
         needs_pairing: false,
         subs: vec![
+            Box::new(crate::engine::EnumSub { name: "long-history", rule: super::longhist::RULE, run: run_long_history, replay: super::longhist::replay, exhaustive: false }),
             Box::new(Sub { name: "g1-predicate", rule: "G1Affine::in_subgroup on arbitrary coordinate pairs vs model predicate", quick: 8_000, thorough: 120_000, strategy: || boxed(pred_strategy(0)), check: check_pred_any }),
             Box::new(Sub { name: "g2-predicate", rule: "G2Affine::in_subgroup on arbitrary coordinate pairs vs model predicate", quick: 3_000, thorough: 40_000, strategy: || boxed(pred_strategy(1)), check: check_pred_any }),
             Box::new(Sub { name: "predicate-histories", rule: "2..6 calls on one thread around ONE base point: checked / unchecked decoding and deserialization of its encoding, the predicate on the point itself, then the predicate on pairs derived from it ((x, y+d), (x, -y), (x+d, y), (beta x, y), (x, d), (d, y), (y, x), infinity flag set); every outcome compared with the definition (no dependence on what was accepted before)", quick: 1_500, thorough: 30_000, strategy: || boxed(pred_hist_strategy()), check: check_pred_hist_any }),
